@@ -63,6 +63,12 @@ macro_rules! endian_checks {
             if n != v {
                 return Some("into native");
             }
+            // clone_from over a destination holding another value (the partner: equal, swapped, ...)
+            let mut d = std::hint::black_box(<$W>::from(partner));
+            d.clone_from(&w);
+            if d.to_native() != v || d != w || d.as_slice() != w.as_slice() {
+                return Some("clone_from");
+            }
             // every byte-level view the crate offers for the wrapper shows / accepts the wire bytes
             let wire = v.$to_bytes();
             let mut m = w;
